@@ -489,7 +489,7 @@ def _determinize(nfa, start, accepts, alpha):
 class DFA:
     """Partial DFA (missing transition = dead) over an Alphabet's atoms."""
 
-    __slots__ = ("alpha", "trans", "start", "accept", "_key")
+    __slots__ = ("alpha", "trans", "start", "accept", "_key", "_trim", "_empty")
 
     def __init__(self, alpha, trans, start, accept):
         self.alpha = alpha
@@ -497,6 +497,8 @@ class DFA:
         self.start = start
         self.accept = frozenset(accept)
         self._key = None
+        self._trim = False
+        self._empty = None
 
     # ---- constructors -----------------------------------------------------
     @staticmethod
@@ -604,7 +606,72 @@ class DFA:
             aq = q is not None and q in other.accept
             if (op == "and" and ap and aq) or (op == "or" and (ap or aq)) or (op == "diff" and ap and not aq):
                 acc.append(i)
-        return DFA(self.alpha, trans, 0, acc).minimized()
+        return DFA(self.alpha, trans, 0, acc).trimmed()
+
+    def intersects(self, other):
+        """Is the intersection non-empty?  (pair search with early exit, nothing is built)"""
+        acc1, acc2 = self.accept, other.accept
+        if not acc1 or not acc2:
+            return False
+        start = (self.start, other.start)
+        if start[0] in acc1 and start[1] in acc2:
+            return True
+        seen = {start}
+        stack = [start]
+        t1, t2 = self.trans, other.trans
+        while stack:
+            p, q = stack.pop()
+            rp, rq = t1[p], t2[q]
+            if len(rp) > len(rq):
+                for a, nq in rq.items():
+                    np_ = rp.get(a)
+                    if np_ is None:
+                        continue
+                    k = (np_, nq)
+                    if k not in seen:
+                        if np_ in acc1 and nq in acc2:
+                            return True
+                        seen.add(k)
+                        stack.append(k)
+            else:
+                for a, np_ in rp.items():
+                    nq = rq.get(a)
+                    if nq is None:
+                        continue
+                    k = (np_, nq)
+                    if k not in seen:
+                        if np_ in acc1 and nq in acc2:
+                            return True
+                        seen.add(k)
+                        stack.append(k)
+        return False
+
+    def included_in(self, other):
+        """self subset of other?  (pair search with early exit; self should be trimmed)"""
+        d = self if self._trim else self.trimmed()
+        acc1, acc2 = d.accept, other.accept
+        if not acc1:
+            return True
+        start = (d.start, other.start)
+        if start[0] in acc1 and start[1] not in acc2:
+            return False
+        seen = {start}
+        stack = [start]
+        t1, t2 = d.trans, other.trans
+        while stack:
+            p, q = stack.pop()
+            rq = t2[q] if q is not None else {}
+            for a, np_ in t1[p].items():
+                nq = rq.get(a)
+                if nq is None:
+                    return False  # np_ is live in a trimmed DFA: some word continues to acceptance
+                k = (np_, nq)
+                if k not in seen:
+                    if np_ in acc1 and nq not in acc2:
+                        return False
+                    seen.add(k)
+                    stack.append(k)
+        return True
 
     def intersect(self, other):
         return self._product(other, "and")
@@ -644,7 +711,20 @@ class DFA:
         return _determinize(nfa, self.start, {off2 + s for s in other.accept}, self.alpha)
 
     def is_empty(self):
-        return self.shortest() is None
+        if self._empty is None:
+            if self._trim:
+                self._empty = not self.accept
+            else:
+                self._empty = self.shortest() is None
+        return self._empty
+
+    def accepts_word(self, atoms):
+        s_ = self.start
+        for a in atoms:
+            s_ = self.trans[s_].get(a)
+            if s_ is None:
+                return False
+        return s_ in self.accept
 
     def subset_of(self, other):
         return self.minus(other).is_empty()
@@ -774,70 +854,96 @@ class DFA:
                     stack.append(s)
         return seen
 
-    def minimized(self):
-        # trim unreachable / dead states, then Moore refinement
+    def trimmed(self):
+        """Remove unreachable and dead states (start stays 0)."""
         live = self._coreachable()
-        reach = []
-        index = {}
-        if self.start in live:
-            index[self.start] = 0
-            reach.append(self.start)
-            i = 0
-            while i < len(reach):
-                for a, t in self.trans[reach[i]].items():
-                    if t in live and t not in index:
-                        index[t] = len(reach)
-                        reach.append(t)
-                i += 1
-        if not reach:
-            return DFA(self.alpha, [{}], 0, ())
-        trans = [{a: index[t] for a, t in self.trans[s].items() if t in live} for s in reach]
-        accept = {index[s] for s in self.accept if s in index}
+        if self.start not in live:
+            e = DFA(self.alpha, [{}], 0, ())
+            e._trim = True
+            return e
+        index = {self.start: 0}
+        reach = [self.start]
+        i = 0
+        while i < len(reach):
+            for a, t in self.trans[reach[i]].items():
+                if t in live and t not in index:
+                    index[t] = len(reach)
+                    reach.append(t)
+            i += 1
+        if len(reach) == len(self.trans) and self.start == 0:
+            ok = True
+            for s_ in reach:
+                if index[s_] != s_:
+                    ok = False
+                    break
+            if ok and all(t in live for row in self.trans for t in row.values()):
+                self._trim = True
+                return self
+        trans = [{a: index[t] for a, t in self.trans[s_].items() if t in live} for s_ in reach]
+        d = DFA(self.alpha, trans, 0, {index[s_] for s_ in self.accept if s_ in index})
+        d._trim = True
+        return d
+
+    def minimized(self):
+        d = self.trimmed()
+        trans, accept = d.trans, d.accept
         n = len(trans)
-        block = [1 if s in accept else 0 for s in range(n)]
+        if n <= 1:
+            return d
+        na = self.alpha.n
+        block = [1 if s_ in accept else 0 for s_ in range(n)]
+        nblocks = len(set(block))
+        rows = []
+        for s_ in range(n):
+            row = [-1] * na
+            for a, t in trans[s_].items():
+                row[a] = t
+            rows.append(row)
         while True:
             sigs = {}
             newblock = [0] * n
-            for s in range(n):
-                sig = (block[s], tuple(sorted((a, block[t]) for a, t in trans[s].items())))
+            for s_ in range(n):
+                sig = (block[s_], tuple([block[t] if t >= 0 else -1 for t in rows[s_]]))
                 b = sigs.get(sig)
                 if b is None:
                     b = len(sigs)
                     sigs[sig] = b
-                newblock[s] = b
-            if len(sigs) == len(set(block)):
-                block = newblock
-                break
+                newblock[s_] = b
             block = newblock
-        nb = len(set(block))
-        # renumber so that start is 0
+            if len(sigs) == nblocks:
+                break
+            nblocks = len(sigs)
+        if nblocks == n:
+            return d
         remap = {}
         order = []
-        for s in range(n):
-            b = block[s]
-            if b not in remap:
-                remap[b] = len(order)
-                order.append(s)
-        mt = []
-        for s in order:
-            mt.append({a: remap[block[t]] for a, t in trans[s].items()})
-        macc = {remap[block[s]] for s in accept}
-        d = DFA(self.alpha, mt, remap[block[0]], macc)
-        if d.start != 0:
-            # swap state 0 and start
-            st = d.start
-            perm = {st: 0, 0: st}
-            def p(x):
-                return perm.get(x, x)
-            mt2 = [None] * len(mt)
-            for s, row in enumerate(mt):
-                mt2[p(s)] = {a: p(t) for a, t in row.items()}
-            d = DFA(self.alpha, mt2, 0, {p(s) for s in macc})
-        return d
+        # BFS from the start so that the start block becomes 0
+        queue = [0]
+        remap[block[0]] = 0
+        order.append(0)
+        i = 0
+        while i < len(queue):
+            s_ = queue[i]
+            for a in sorted(trans[s_]):
+                t = trans[s_][a]
+                if block[t] not in remap:
+                    remap[block[t]] = len(order)
+                    order.append(t)
+                    queue.append(t)
+            i += 1
+        mt = [{a: remap[block[t]] for a, t in trans[s_].items()} for s_ in order]
+        macc = {remap[block[s_]] for s_ in accept}
+        md = DFA(self.alpha, mt, 0, macc)
+        md._trim = True
+        return md
 
     def key(self):
-        """Canonical key (minimized DFAs with BFS numbering are canonical up to atom order)."""
+        """Canonical key of the language (minimises first; BFS numbering in atom order)."""
         if self._key is None:
+            m = self.minimized()
+            if m is not self:
+                self._key = m.key()
+                return self._key
             order = {self.start: 0}
             queue = [self.start]
             rows = []
